@@ -734,7 +734,8 @@ class SimOSModule(object):
                         pass
                 child.state = "zombie"
                 sig = getattr(_real_signal, "SIGCHLD", 17)
-                parent.pending.append(sig)
+                if sig not in parent.pending:
+                    parent.pending.append(sig)      # standard signals are not queued: several exits, one pending SIGCHLD
 
         t = s.spawn(child_main, "proc-%d" % child.pid)
         t.proc = child
